@@ -1061,6 +1061,10 @@ fn run_case(case: &Case, tgt: Tgt, mode: &Mode, out: &mut Out, hist: &mut Hist) 
             } else if e.contains("metal generate: UnsupportedBindGroupIndex(") {
                 // a bind group beyond the argument buffers Metal provides is refused cleanly (predicted by the model)
                 "err:UnsupportedBindGroupIndex".to_string()
+            } else if e.contains("generate: UnsupportedObjectType") {
+                // a global of an object kind without a descriptor type (`RayDesc g;`): refused by `analyse_bindings` of
+                // either exporter (predicted by the model; before fix 774c0b4 DirectX panicked in the allocator instead)
+                "err:UnsupportedObjectType".to_string()
             } else if e.contains("metal generate: UnboundGlobal") {
                 // since fix 2ba03a4: a stage entry point that reaches an extern global without a place in an argument
                 // buffer (2-D resource array, struct holding resources) is refused cleanly (predicted by the model)
@@ -1072,7 +1076,7 @@ fn run_case(case: &Case, tgt: Tgt, mode: &Mode, out: &mut Out, hist: &mut Hist) 
             };
             hist.add("outcome=error");
             hist.add(&format!("error={}", obs.chars().take(60).collect::<String>()));
-            let skip = !(obs == "err:none" || obs == "err:unknown" || obs == "err:UnsupportedBindGroupIndex" || obs == "err:UnboundGlobal" || known.is_some());
+            let skip = !(obs == "err:none" || obs == "err:unknown" || obs == "err:UnsupportedBindGroupIndex" || obs == "err:UnboundGlobal" || obs == "err:UnsupportedObjectType" || known.is_some());
             out.case(&req, &obs, if skip { "SKIP:compile error" } else { "ok" });
         }
         Raw::Panic(p) => {
@@ -1209,9 +1213,18 @@ fn mutate(case: &mut Case, rng: &mut Rng, hist: &mut Hist) {
             }
         }
     }
+    // a global of an object type that is no resource (never bound; every target refuses the module)
+    if !case.res.is_empty() && rng.chance(1, 40) {
+        let k = rng.below(case.res.len() as u64) as usize;
+        let r = &mut case.res[k];
+        if r.kind.starts_with("Texture") && !r.bl && !r.stat && r.group.is_none() && !matches!(r.arr, ArrLen::Unsized | ArrLen::Nested(..)) {
+            r.kind = "RayDesc".to_string();
+            hist.add("variant=non-resource-object-global");
+        }
+    }
     // how the bind group is written, explicit language-level indices, namespaces, sampler property sets
     for r in case.res.iter_mut() {
-        let annotatable = r.kind != "struct" && !matches!(r.arr, ArrLen::Nested(..));
+        let annotatable = r.kind != "struct" && r.kind != "RayDesc" && !matches!(r.arr, ArrLen::Nested(..));
         if r.group.is_some() && rng.chance(1, 2) {
             r.gspell = *rng.pick(&[GSpell::Reg, GSpell::Vk, GSpell::Over]);
             // vk::binding carries an index, which a static sampler must not have
